@@ -23,4 +23,9 @@ def instances():
     out.append(Inst(id="c18.utf8", props=["C18", "C01"], harness="h_c18.cpp", entry="c18_utf8", native_extra=NX, tus=CORE_TUS + ["blocc/plugin.cpp", "modules/utf8/plugin_utf8.cpp", "modules/utf8/utf8helper.cpp", "modules/utf8/utf8helper_charmap.cpp"],
                     defs=["VX_M_AT=%d" % M["At"], "VX_M_REMOVE=%d" % M["Remove"], "VX_M_SUBSTR2=%d" % M["Substr2"]], stubs=FMT_STUBS + CTX_STUBS + [x for x in CONTAINER_STUBS if "Complex" not in x],
                     unwind=6, unwindset=EMPTY_DECL_UNWIND, timeout=900, truncate_long=True, bounds="string of 2 ASCII characters", inputs="position and count (int64, converted as the module does)"))
+    for n in (1, 2, 3, 4):
+        out.append(Inst(id="c18.utf8.decode.%d" % n, props=["C18", "C01"], harness="h_c18.cpp", entry="c18_utf8_decode", native_extra=NX, tus=CORE_TUS + ["blocc/plugin.cpp", "modules/utf8/plugin_utf8.cpp", "modules/utf8/utf8helper.cpp", "modules/utf8/utf8helper_charmap.cpp"],
+                        defs=["VX_N=%d" % n, "VX_M_AT=%d" % M["At"], "VX_M_REMOVE=%d" % M["Remove"], "VX_M_SUBSTR2=%d" % M["Substr2"]], stubs=FMT_STUBS + CTX_STUBS + [x for x in CONTAINER_STUBS if "Complex" not in x],
+                        unwind=6, unwindset=EMPTY_DECL_UNWIND, timeout=900, truncate_long=True, tier="quick" if n in (2, 4) else "thorough",
+                        bounds="every well-formed UTF-8 sequence of %d byte(s) (RFC 3629 table) pushed into an empty utf8 string" % n, inputs="the bytes"))
     return out
